@@ -292,6 +292,8 @@ def check(case):
     logging.getLogger("mxlpy").setLevel(logging.CRITICAL)
     if case.get("family") == "rebind":
         return check_rebind(case)
+    if case.get("family") == "library":
+        return check_library(case)
     src, ren, tid = case["src"], case["ren"], case["tid"]
     fn = get_function(src)
     names = RENAMINGS[ren]
@@ -341,6 +343,67 @@ def check(case):
 
 def _close(a, b):
     return abs(a - b) <= 1e-9 + 1e-9 * max(abs(a), abs(b))
+
+
+# ---- the shipped rate-law library (mxlpy.fns), 1 to 7 parameters ---------------------------------------
+
+LIB_GRID = [0.25, 1.0, 1.5, 3.0]
+
+
+def library_functions():
+    import inspect
+
+    from mxlpy import fns
+
+    return sorted(n for n, f in vars(fns).items() if inspect.isfunction(f) and f.__module__ == fns.__name__ and not n.startswith("_"))
+
+
+def library_renamings(params):
+    """Model names for the parameters: none, fresh, and the function's own parameter names in every rotation and
+    reversed (a model that happens to use the library's parameter names for other things)."""
+    n = len(params)
+    out = {"none": None, "fresh": [f"m{i}" for i in range(n)], "reversed": list(reversed(params))}
+    for r in range(1, n):
+        out[f"rotated{r}"] = params[r:] + params[:r]
+    if n >= 2:
+        out["duplicate"] = [params[1]] + params[1:]  # two parameters bound to the same model name
+    return out
+
+
+def check_library(case):
+    import inspect
+
+    import sympy
+    from mxlpy import fns
+    from mxlpy.meta.source_tools import fn_to_sympy
+
+    fn = getattr(fns, case["fn"])
+    params = list(inspect.signature(fn).parameters)
+    names = library_renamings(params)[case["ren"]]
+    symnames = params if names is None else names
+    txt = f"mxlpy.fns.{case['fn']}({', '.join(params)}) with model names {symnames}"
+    try:
+        expr = fn_to_sympy(fn, origin="c06lib", model_args=None if names is None else [sympy.Symbol(n) for n in names])
+    except Exception as exc:  # noqa: BLE001
+        return outcome(False, "library-refused", symptom="library-function-not-translated", nontrivial=True, detail=f"{type(exc).__name__}: {exc} | {txt}")
+    if expr is None:
+        return outcome(False, "library-refused", symptom="library-function-not-translated", nontrivial=True, detail=f"no expression | {txt}")
+    uniq = list(dict.fromkeys(symnames))
+    compared = 0
+    for point in it.product(LIB_GRID, repeat=len(uniq)):
+        env = dict(zip(uniq, point, strict=True))
+        vals = [env[n] for n in symnames]
+        try:
+            want = float(fn(*vals))
+        except Exception:  # noqa: BLE001
+            continue
+        if math.isnan(want) or math.isinf(want):
+            continue
+        got = evaluate_expr(expr, uniq, [env[n] for n in uniq])
+        compared += 1
+        if not _close(got, want):
+            return outcome(False, "unsound", symptom="unsound:library", nontrivial=True, detail=f"{txt}: f{tuple(vals)}={want} but expression {expr} gives {got}")
+    return outcome(True, "sound", nontrivial=True, extra={"points_compared": compared})
 
 
 REBIND_SRC = '''
@@ -417,5 +480,14 @@ def run(ctx):
     for fn_name in ("uses_helper", "uses_helper_twice"):
         for steps in (["translate", "rebind", "translate"], ["rebind", "translate"], ["translate", "translate", "rebind", "translate"]):
             cases.append({"family": "rebind", "fn": fn_name, "steps": steps})
+    import inspect
+
+    from mxlpy import fns
+
+    lib = library_functions()
+    for name in lib:
+        for ren in library_renamings(list(inspect.signature(getattr(fns, name)).parameters)):
+            cases.append({"family": "library", "fn": name, "ren": ren})
+    ctx.note(f"{len(lib)} shipped rate laws (mxlpy.fns) under every rotation of their own parameter names")
     ctx.evaluate(cases, timeout=120)
-    ctx.coverage_extra.update({"bodies": len(funcs), "renamings": list(RENAMINGS), "templates": sorted({t for _f, t, _s in funcs})})
+    ctx.coverage_extra.update({"library_functions": lib, "bodies": len(funcs), "renamings": list(RENAMINGS), "templates": sorted({t for _f, t, _s in funcs})})
